@@ -1175,6 +1175,10 @@ class FunctionAnalysis:
 
     def call_target(self, tgt: str, pos, kwargs, n, env, star=()) -> AV:
         tgt = self.p.canonical(tgt)
+        if tgt.endswith(".__new__") and tgt.rsplit(".", 1)[0] in self.p.classes and tgt not in self.p.functions:
+            # C.__new__(C): a fresh instance with nothing set
+            c = self.p.classes[tgt.rsplit(".", 1)[0]]
+            return AV(frozenset([Origin(self.oa.new_site(n))]), None, "obj", frozenset([c.qualname]))
         if tgt in self.p.functions:
             return self.call_repo(self.p.functions[tgt], pos, kwargs, n, env, star=star)
         if tgt in self.p.classes:
